@@ -1516,7 +1516,7 @@ fn main() {
         None => tempfile::tempdir().unwrap(),
     };
     let seed = run.args.seed;
-    let n = run.args.count(1500, 20000);
+    let n = run.args.count(1500, 15000);
     for i in 0..n {
         for (stream, wide) in [(0u64, false), (1u64, true)] {
             let id = format!("{}:{}", stream, i);
